@@ -191,3 +191,38 @@ func VerifH_C02_two_args() {
 	})
 	verifAssert(k2 == verifNormal, "follow-up Run does not panic")
 }
+
+// C02-H1c: every reachable function used as a constructor, directly and
+// through a bound function, with 0..1 arguments of every kind.
+func VerifH_C02_construct() {
+	fns := verifSplit(verifOnce("surface", func() string {
+		lst, err := New().Run(verifSurfaceScript)
+		if err != nil {
+			return ""
+		}
+		return lst.String()
+	}))
+	vm := New()
+	if len(fns) == 0 {
+		return
+	}
+	fn := fns[verifChoose(len(fns))]
+	maxStr := verifParam("maxstr", 2)
+	verifSetKind(vm, "A", verifChoose(10), maxStr)
+	var script string
+	switch verifChoose(3) {
+	case 0:
+		script = "new (" + fn + ")(A)"
+	case 1:
+		script = "new (Function.prototype.bind.call(" + fn + ", A))"
+	default:
+		script = "new (Function.prototype.bind.call(" + fn + ", null, A))(A)"
+	}
+	verifLog("script: " + script)
+	kind, val := verifCatch(func() { vm.Run(script) })
+	if kind != verifNormal {
+		verifLog(fmt.Sprintf("escaped: %v", val))
+	}
+	verifCover("called")
+	verifAssert(kind == verifNormal, "Run returns (value or error): no Go panic escapes")
+}
